@@ -203,7 +203,7 @@ def check_property(spec: PropertySpec, tier="quick", seed=0, src_root="/repo/src
     for target in list(spec.targets) + list(spec.bounded_targets):
         scope = E.registry.scopes.get(target)
         c = E.registry.contracts.get(target)
-        if scope is None or c is None or c.kind != "code":
+        if scope is None or c is None or c.kind not in ("code", "assumed"):
             continue
         if any(v[0].startswith(target) and v[2] for v in violations):
             continue
